@@ -168,6 +168,20 @@ Theorem C12_lru_honours_contract : forall cap,
 Proof. intros cap. split; [apply lru_get_sound' | split; [apply lru_get_keeps' | apply lru_set_keeps']]. Qed.
 Print Assumptions C12_lru_honours_contract.
 
+(* ---- faults ----
+   A call during which os.stat or open fails for some file is a call on a snapshot with a Broken / Unreadable node:
+   it is covered by the theorems above (its specified result is the error).  Moreover a failed call stores
+   nothing: the cache is what the lookup left (an LRU touch at most), so later calls find valid items only. *)
+Theorem C12_failed_call_stores_nothing : forall V C H yload (S : Type) cget cset st k e,
+  snd (step_with V C H yload S cget cset st k) = Err e ->
+  fst (step_with V C H yload S cget cset st k) = snd (cget (k_sys k) st).
+Proof.
+  intros V C H yload S cget cset st k e. unfold step_with. destruct (cget (k_sys k) st) as [old st1]. cbn [snd].
+  destruct (compile_call V C H yload k (match old with Some it => it | None => empty_item end)) as [[[d v] [new|]]|e'];
+    cbn [fst snd]; intros E; try discriminate; reflexivity.
+Qed.
+Print Assumptions C12_failed_call_stores_nothing.
+
 (* one call over a cache whose item is usable (kept: the step lemma under the weaker, snapshot-relative premise) *)
 Theorem C12_cache_transparent_step : forall V C H yload cap st k,
   rerender V = false ->
